@@ -5,6 +5,9 @@
              9 UDP: a datagram is queued behind a suspended handler of the same address
              10 (standalone) shutdown() pre-empted right before its event wait   11 that thread resumes
              12 (standalone) NetworkServerThread(server).start(): two status slots (start(), the thread's serve_forever)
+             17 (async) the held listeners factory fails with a bind error (OSError: status 7)
+             18 (standalone) a request handler calls server.is_serving() / get_addresses() from inside the server thread
+             19 (async, 4th gate) the service's exit stack (service_quit) is released
              13 / 14 (standalone) serve_forever held before its first / second lock acquisition; 15 server_close held before
              its second lock acquisition; 16 that call goes on
            standalone gates: [start-up window (locks held); service_init; tear-down before the bootstrap lock is re-acquired]
@@ -17,7 +20,7 @@ From EN Require Import Lib.Bytes Lib.Sx Gen.ParamsC18 Conc.Lifecycle.
 Open Scope Z_scope.
 
 Definition out_code (o : outcome) : Z :=
-  match o with OOk => 1 | OAlreadyRunning => 2 | OClosed => 3 | OBusy => 4 | OCrash => 5 end.
+  match o with OOk => 1 | OAlreadyRunning => 2 | OClosed => 3 | OBusy => 4 | OCrash => 5 | OFail => 7 end.
 
 Fixpoint set_nth (n : nat) (v : Z) (l : list Z) : list Z :=
   match n, l with
@@ -44,16 +47,29 @@ Definition ext_label (c : Z) : option label :=
   | _ => None
   end.
 
+Definition first_act (s : st) : option nat :=
+  match filter (fun e => match snd e with SAct => true | _ => false end) (serves s) with
+  | (id, _) :: _ => Some id
+  | [] => None
+  end.
+
 Definition do_label (g : gates) (c : Z) (s : st) (stat : list Z) : st * list Z :=
   let g' := match c with
-            | 6 => {| g_factory := false; g_init := g_init g; g_client := g_client g |}
-            | 7 => {| g_factory := g_factory g; g_init := false; g_client := g_client g |}
-            | 8 => {| g_factory := g_factory g; g_init := g_init g; g_client := false |}
+            | 6 => {| g_factory := false; g_init := g_init g; g_client := g_client g; g_quit := g_quit g |}
+            | 7 => {| g_factory := g_factory g; g_init := false; g_client := g_client g; g_quit := g_quit g |}
+            | 8 => {| g_factory := g_factory g; g_init := g_init g; g_client := false; g_quit := g_quit g |}
+            | 19 => {| g_factory := g_factory g; g_init := g_init g; g_client := g_client g; g_quit := false |}
             | _ => g
             end in
   let '(s1, o1) := match ext_label c with
                    | Some l => match step s l with Some r => r | None => (s, []) end
-                   | None => (s, [])
+                   | None =>
+                       if Z.eqb c 17   (* the held listeners factory is released with a bind error *)
+                       then match first_act s with
+                            | Some id => match step s (LFactoryFail id) with Some r => r | None => (s, []) end
+                            | None => (s, [])
+                            end
+                       else (s, [])
                    end in
   let '(s2, o2) := settle FUEL g' s1 in
   (s2, apply_obs (o1 ++ o2) (pad (next_id s2) stat)).
@@ -135,7 +151,7 @@ Definition async_do (g : sgates) (open_init : bool) (x : sst) (l : label) : sst 
   | None => x
   | Some a =>
       let '(a1, o1) := match step a l with Some r => r | None => (a, []) end in
-      let '(a2, o2) := settle FUEL {| g_factory := false; g_init := sg_init g && negb open_init; g_client := false |} a1 in
+      let '(a2, o2) := settle FUEL {| g_factory := false; g_init := sg_init g && negb open_init; g_client := false; g_quit := false |} a1 in
       wrap_up (sg_teardown g) x a2 (o1 ++ o2)
   end.
 
@@ -300,6 +316,10 @@ Fixpoint srun_labels (g : sgates) (cs : list Z) (x : sst) : list sx :=
 
 Definition run (x : sx) : sx :=
   match x with
+  | L (A k :: L [A gf; A gi; A gc; A gq] :: L cs :: _) =>
+      do cs <- map_opt as_Z cs;
+      L (run_labels {| g_factory := negb (Z.eqb gf 0); g_init := negb (Z.eqb gi 0); g_client := negb (Z.eqb gc 0);
+                       g_quit := negb (Z.eqb gq 0) |} cs init [])
   | L (A k :: L [A gf; A gi; A gc] :: L cs :: _) =>
       do cs <- map_opt as_Z cs;
       if Z.leb 2 k
@@ -307,7 +327,7 @@ Definition run (x : sx) : sx :=
                 {| tclosed := false; arun := None; cur := O; sstat := []; window := false; blocked := []; pre := None;
                    hung := []; tdown := None; isup := false; starts := []; paused := None; heldc := false; heldb := false |})
       else
-      L (run_labels {| g_factory := negb (Z.eqb gf 0); g_init := negb (Z.eqb gi 0); g_client := negb (Z.eqb gc 0) |}
-                    cs init [])
+      L (run_labels {| g_factory := negb (Z.eqb gf 0); g_init := negb (Z.eqb gi 0); g_client := negb (Z.eqb gc 0);
+                       g_quit := false |} cs init [])
   | _ => bad_input
   end.
